@@ -24,6 +24,17 @@ type C18Line struct {
 	Tagged bool   `json:"tagged"`
 	Sep    string `json:"sep"`  // whitespace between the tag and the text (tagged lines)
 	Text   []byte `json:"text"` // newline- and NUL-free
+	// Tail > 0: the line continues with this many 'x' bytes (a long embedded
+	// blob, a very long description); kept out of Text so that cases stay small
+	Tail int `json:"tail,omitempty"`
+}
+
+// full returns the text of the line including its tail.
+func (l C18Line) full() []byte {
+	if l.Tail <= 0 {
+		return l.Text
+	}
+	return append(bytes.Clone(l.Text), bytes.Repeat([]byte("x"), l.Tail)...)
 }
 
 type C18Case struct {
@@ -69,7 +80,7 @@ func refRows(c C18Case) map[row]bool {
 		if !l.Tagged {
 			continue
 		}
-		rest := asciiTrim(append([]byte(l.Sep), l.Text...))
+		rest := asciiTrim(append([]byte(l.Sep), l.full()...))
 		if len(rest) == 0 {
 			continue
 		}
@@ -89,7 +100,7 @@ func payload(c C18Case) string {
 			sb.WriteString(shellfuncsfile.DocPrefix)
 			sb.WriteString(l.Sep)
 		}
-		sb.Write(l.Text)
+		sb.Write(l.full())
 		sb.WriteByte('\n')
 	}
 	return sb.String()
@@ -309,6 +320,14 @@ func genC18() *rapid.Generator[C18Case] {
 				// untagged text, including look-alikes that must not be listed
 				l.Text = []byte(rapid.SampledFrom([]string{"f() { echo hi; }", " # TABDOC: indented not-a-tag", "#TABDOC: nospace", "# TABDOC", "x # TABDOC: trailing", "", "echo '# TABDOC: q'"}).Draw(t, "plain"))
 			}
+			// now and then a very long line: an embedded blob in the code, or a
+			// description that goes on and on
+			if rapid.IntRange(0, 40).Draw(t, "long") == 0 {
+				l.Tail = rapid.SampledFrom([]int{4000, 65000, 65536, 70000, 200000}).Draw(t, "tail")
+				if l.Tagged && len(asciiTrim(l.Text)) == 0 {
+					l.Text = []byte("longdoc ")
+				}
+			}
 			c.Lines = append(c.Lines, l)
 		}
 		c.ViaFrom = rapid.IntRange(0, 7).Draw(t, "viafrom") == 0
@@ -341,6 +360,9 @@ func c18Classes(c C18Case) []string {
 	nt, dup, empty := 0, false, false
 	seen := map[string]bool{}
 	for _, l := range c.Lines {
+		if l.Tail >= 65000 {
+			cl = append(cl, "line-over-64KiB")
+		}
 		if !l.Tagged {
 			continue
 		}
